@@ -53,23 +53,38 @@ func method(path string) string {
 	return path
 }
 
-func (ip *interposer) killMachine(host string, other bool) {
+// pick chooses the machine to kill (called with ip.mu held); the kill itself
+// must happen without the lock and must not be waited for indefinitely:
+// httptest.Server.Close blocks until the server's in-flight handlers return,
+// and one of them may be the very caller of this RoundTrip.
+func (ip *interposer) pick(host string, other bool) *bigmachine.Machine {
 	n := ip.sys.N()
 	for i := 0; i < n; i++ {
 		m := ip.sys.Index(i)
-		isCallee := strings.Contains(m.Addr, host)
-		if isCallee != other {
-			if ip.sys.Kill(m) {
-				ip.killed = append(ip.killed, fmt.Sprintf("%s@%d", map[bool]string{false: "callee", true: "other"}[other], ip.n))
-			}
-			return
+		if strings.Contains(m.Addr, host) != other {
+			ip.killed = append(ip.killed, fmt.Sprintf("%s@%d", map[bool]string{false: "callee", true: "other"}[other], ip.n))
+			return m
 		}
+	}
+	return nil
+}
+
+func (ip *interposer) kill(m *bigmachine.Machine) {
+	if m == nil {
+		return
+	}
+	done := make(chan struct{})
+	go func() { ip.sys.Kill(m); close(done) }()
+	select {
+	case <-done:
+	case <-time.After(300 * time.Millisecond):
 	}
 }
 
 func (ip *interposer) RoundTrip(req *http.Request) (*http.Response, error) {
 	m := method(req.URL.Path)
 	var k *Kill
+	var victim *bigmachine.Machine
 	if strings.HasPrefix(m, "Worker.") {
 		ip.mu.Lock()
 		idx := ip.n
@@ -82,16 +97,17 @@ func (ip *interposer) RoundTrip(req *http.Request) (*http.Response, error) {
 				}
 			}
 		}
-		if k != nil && !k.After {
-			ip.killMachine(req.URL.Host, k.Target == "other")
+		if k != nil {
+			victim = ip.pick(req.URL.Host, k.Target == "other")
 		}
 		ip.mu.Unlock()
 	}
+	if k != nil && !k.After {
+		ip.kill(victim)
+	}
 	resp, err := ip.inner.RoundTrip(req)
 	if k != nil && k.After {
-		ip.mu.Lock()
-		ip.killMachine(req.URL.Host, k.Target == "other")
-		ip.mu.Unlock()
+		ip.kill(victim)
 	}
 	return resp, err
 }
@@ -166,6 +182,9 @@ func scenario(d Desc) (first, again prog.Obs, trace []string, killed []string) {
 
 func main() {
 	exec.ProbationTimeout = 300 * time.Millisecond
+	// the declared policy for remote partition reads backs off 5,10,20,40,60 s (5 retries):
+	// keep the retry count, shrink the waits
+	exec.VerifSetRetryBackoff(100*time.Millisecond, time.Second, 2, 5)
 	opts := vf.ParseFlags()
 	out := &vf.Output{ID: "C02", Import: "BS.C02.Corr",
 		Rule: "generated programs without side effects (map-only, reduce, cogroup, fold, multi-stage shuffles) on bigmachine/testsystem (1-2 procs per machine, parallelism 4, no machine combiners) with every RPC through an interposer; a failure-free run gives the number N of Worker.{Compile,Run,Stat,Read,CommitCombiner} calls of run+scan; scenarios kill the callee or another machine before or after the k-th call (single kills for sampled k, some double kills), then run the program again in the same session; non-trivial = a machine was actually killed; distinct by description"}
